@@ -473,3 +473,13 @@ func checkWrapper(c *Ctx, w *ssa.Function, pr XProc, key string) {
 		R.Check(ok, "C16.X4", key+"|args.Error() checked", P.Pos(w.Pos()), "the handler is called only when the argument decoder reported no error, and otherwise that error is returned", "dominated by args.Error() == nil; the early return carries the error", "a truncated or malformed argument reaches the handler half-decoded, or is answered as a success with an empty body, instead of being rejected as GARBAGE_ARGS")
 	}
 }
+
+// ruleX4: the X4 clause of C16 under another property's id (a request whose
+// arguments do not decode must not reach the handler: it would run, and
+// commit, on a half-decoded request and still be answered with an error).
+func ruleX4(c *Ctx, id string) {
+	old := c.R.remap
+	c.R.remap = map[string]string{"C16.X4": id}
+	ruleX(c)
+	c.R.remap = old
+}
